@@ -23,6 +23,7 @@ THEOREMS = [
     'C13.strip_noop_without_trailing_dot_zeros', 'C13.strip_noop_nonfinite', 'C13.strip_is_literal',
     'C13.literal_never_raises', 'C13.parse_number_total', 'C13.parse_float_never_nonfinite', 'C13.parse_int_total',
     'C13.int_prints_digits_only', 'C13.int_text_roundtrip',
+    'C13.strip_removes_trailing_dot_zeros', 'C13.numberParseFloat_strip_repr',
     'C13.roundtrip_under_assumptions', 'C13.literal_roundtrip_under_assumptions',
 ]
 ASSUMPTIONS = [
